@@ -56,11 +56,22 @@ def generic_site(p):
     return p
 
 
+SYMLINK_DOTDOT = [0]
+
+
 def make_case(cid, rng, schema, root, n_ops, every, name_k=0):
     from ..framework import dir_name
     d = os.path.join(root, dir_name(cid, name_k))
     if name_k % 9 == 4:
         d = os.path.relpath(d)   # the library is named relative to the working directory throughout
+    elif name_k % 9 == 7:
+        # the library is named by a path that climbs out of a symlinked folder: "<root>/via_x/../lib" with via_x -> phys_x/deep is
+        # physically <root>/phys_x/lib, whereas collapsing the ".." textually would give <root>/lib
+        os.makedirs(os.path.join(root, "phys_" + cid, "deep"), exist_ok=True)
+        if not os.path.islink(os.path.join(root, "via_" + cid)):
+            os.symlink(os.path.join("phys_" + cid, "deep"), os.path.join(root, "via_" + cid))
+        d = os.path.join(root, "via_" + cid, "..", dir_name(cid, name_k))
+        SYMLINK_DOTDOT[0] += 1
     ops, metas = GH.gen_library_history(rng, schema, n_ops)
     from ..framework import is_v2
     full = [{"op": "lib_create" if is_v2(schema) else "create", "schema": schema, "dir": d}]
@@ -312,6 +323,7 @@ def run(ctx):
                 if name_k:
                     ctx.bump_in("directory_name_shapes", DIR_NAME_POOL[name_k % len(DIR_NAME_POOL)].format("NAME")[:24])
                 n += 1
+        ctx.extra["libraries_named_by_a_path_with_dotdot_after_a_symlink"] = SYMLINK_DOTDOT[0]
         dec = decision_cases(root)
         for c in cases + dec:
             shape = c.get("_shape", "empty-directory")
